@@ -4,6 +4,8 @@ import (
 	"fmt"
 
 	"verif/internal/checks/c13"
+	"verif/internal/checks/c19"
+	"verif/internal/checks/relay"
 	"verif/internal/ev"
 )
 
@@ -11,6 +13,15 @@ func init() {
 	checks["C13"] = check{run: func(tier string) int {
 		r := ev.Start("C13", tier, "exploration")
 		evals, nontriv := c13.Run(r, tier)
+		// the whole application: three-chain relay histories, then a chain is restarted from its exported genesis (export of
+		// every module, InitChain of a fresh application): xibc records, contract state and balances must be what they were
+		steps, vs := relay.ScriptedViolations("C13")
+		for _, v := range vs {
+			r.Violation(v.Sig, v.Detail, map[string]interface{}{"engine": "relay-script", "check": "C13", "history": v.History})
+		}
+		r.Count("scripted_relay_steps_with_restart_from_exported_genesis", int64(steps))
+		evals += c19.ManyRecords(r, "C13")
+		evals += int64(steps)
 		if evals < 8 {
 			fmt.Println("HARNESS-ERROR: C13 vacuous")
 			return 2
